@@ -12,6 +12,78 @@ def scale(tier, quick, thorough):
     return thorough if tier == "thorough" else quick
 
 
+
+def long_scripts(rng, ci, tier, kinds):
+    """A few LONG sequences (around and beyond 4096 bits: a blocked, chunked or buffered implementation
+    must keep the symbol framing across its blocks), checked through linear observations only (equality
+    with the expected symbols built another way, hash partition, length)."""
+    out = []
+    q = 4096 // ci.bits
+    lens = [q, q + 1, 2 * q + 1] if tier != "thorough" else [q - 1, q, q + 1, 2 * q - 1, 2 * q + 1, 3 * q + 2]
+    comp = ci.tab.get("comp") or []
+    for n in lens:
+        x = rand_codes(rng, ci, n)
+        s = Script(ci)
+        pre = rand_codes(rng, ci, rng.choice([1, 3, ci.per_word - 1, ci.per_word + 1]))
+        s.add("collect", 0, pre + x + pre); s.regs.append(None)
+        w = SD(0, [(0, len(pre), len(pre) + n)])                     # x as an unaligned window
+        s.add("collect", 1, x); s.regs.append(None); a = 1           # x collected
+        for kind in kinds:
+            if kind == "eq":
+                chars = codes_to_bytes(ci, x)
+                if all(c is not None and ci.code_of(c) == k for c, k in zip(chars, x)):
+                    s.add("parse", rng.randint(0, 5), chars); s.regs.append(None)
+                    s.add("eq", 2, SD(a), SD(len(s.regs) - 1))
+                s.add("eq", 3, SD(a), w); s.add("eq", 0, w, SD(a, [(5, 0, 0)]))
+                s.add("hasheq", SD(a), w)
+                y = list(x); y[-1] = rng.choice([c for c in ci.items if c != y[-1]] or [y[-1]])
+                s.add("collect", 0, y); s.regs.append(None)
+                s.add("eq", 2, SD(a), SD(len(s.regs) - 1)); s.add("hasheq", SD(a), SD(len(s.regs) - 1))
+                s.add("len", w)
+            elif kind == "rev":
+                s.add("torev", w); s.regs.append(None); r = len(s.regs) - 1
+                s.add("collect", 0, x[::-1]); s.regs.append(None)
+                s.add("eq", 2, SD(r), SD(len(s.regs) - 1))
+                s.add("clone", a); s.regs.append(None); c = len(s.regs) - 1
+                s.add("rev", c); s.add("eq", 2, SD(c), SD(r))
+            elif kind == "comp" and all(comp[c] is not None for c in set(x)):
+                cx = [comp[c] for c in x]
+                s.add("tocomp", w); s.regs.append(None); r = len(s.regs) - 1
+                s.add("collect", 0, cx); s.regs.append(None)
+                s.add("eq", 2, SD(r), SD(len(s.regs) - 1))
+                s.add("torevcomp", SD(a)); s.regs.append(None); r2 = len(s.regs) - 1
+                s.add("collect", 0, cx[::-1]); s.regs.append(None)
+                s.add("eq", 2, SD(r2), SD(len(s.regs) - 1))
+            elif kind == "edit":
+                cut = rng.randint(1, n - 1)
+                ins = rand_codes(rng, ci, rng.choice([1, ci.per_word, ci.per_word + 1]))
+                s.add("clone", a); s.regs.append(None); c = len(s.regs) - 1
+                s.add("collect", 0, ins); s.regs.append(None); i = len(s.regs) - 1
+                s.add("insert", c, cut, SD(i))
+                s.add("collect", 0, x[:cut] + ins + x[cut:]); s.regs.append(None)
+                s.add("eq", 2, SD(c), SD(len(s.regs) - 1))
+                s.add("remove", c, 0, cut, cut + len(ins)); s.add("eq", 2, SD(c), SD(a))
+                s.add("truncate", c, q - 1); s.add("prepend", c, SD(i))
+                s.add("collect", 0, ins + x[:q - 1]); s.regs.append(None)
+                s.add("eq", 2, SD(c), SD(len(s.regs) - 1))
+            elif kind == "serde":
+                for f in (0, 1):
+                    s.add("serde", f, a); s.regs.append(None)
+                    s.add("eq", 2, SD(a), SD(len(s.regs) - 1)); s.add("hasheq", SD(a), SD(len(s.regs) - 1))
+            elif kind == "setops":
+                y = rand_codes(rng, ci, n)
+                s.add("collect", 0, pre[:1] + y); s.regs.append(None); yr = len(s.regs) - 1
+                yw = SD(yr, [(4, 1, 0)])
+                s.add("and", w, yw); s.regs.append(None); r = len(s.regs) - 1
+                s.add("collect", 0, [p & q_ for p, q_ in zip(x, y)]); s.regs.append(None)
+                s.add("eq", 2, SD(r), SD(len(s.regs) - 1))
+                s.add("or", w, yw); s.regs.append(None); r = len(s.regs) - 1
+                s.add("collect", 0, [p | q_ for p, q_ in zip(x, y)]); s.regs.append(None)
+                s.add("eq", 2, SD(r), SD(len(s.regs) - 1))
+                s.add("contains", 0, w, yw); s.add("contains", 0, w, w)
+        out.append(s.ops)
+    return out
+
 # ---------------------------------------------------------------- C01
 def gen_C01(rng, ci, tier):
     out = []
@@ -99,6 +171,7 @@ def gen_C01(rng, ci, tier):
         s.add("parse", e, [0xE2, 0x82, 0xAC])
         s.add("parse", e, pre + [0xF0, 0x9F, 0x98, 0x80])
         out.append(s.ops)
+    out += long_scripts(rng, ci, tier, ['eq'])
     return out
 
 
@@ -276,6 +349,7 @@ def gen_C07(rng, ci, tier):
             s.add("revcomp", y); s.add("eq", 2, SD(y), SD(own))
             s.add("codes", d)
         out.append(s.ops)
+    out += long_scripts(rng, ci, tier, ['rev', 'comp'])
     return out
 
 
@@ -294,6 +368,22 @@ def gen_C20(rng, ci, tier):
             s.add("codes", SD(m)); s.add("codes", SD(u))
             s.add("clone", r); c = len(s.regs); s.regs.append(None)
             s.add("unmask", c); s.add("codes", SD(c)); s.add("mask", c); s.add("codes", SD(c))
+        out.append(s.ops)
+    # long sequences (many words; a blocked or chunked implementation must keep the symbol framing):
+    # compared with the expected symbols through linear observations only
+    mtab, utab = ci.tab["mask"], ci.tab["unmask"]
+    for n in (scale(tier, [819, 820, 1229], [819, 820, 821, 1229, 1639, 2050])):
+        codes = rand_codes(rng, ci, n)
+        s = Script(ci)
+        own = s.new_from_codes(rng, codes, how="collect")
+        s.add("tomask", own); m = len(s.regs); s.regs.append(None)
+        s.add("tounmask", own); u = len(s.regs); s.regs.append(None)
+        s.add("collect", 0, [mtab[c] for c in codes]); em = len(s.regs); s.regs.append(None)
+        s.add("collect", 0, [utab[c] for c in codes]); eu = len(s.regs); s.regs.append(None)
+        s.add("eq", 2, SD(m), SD(em)); s.add("eq", 2, SD(u), SD(eu))
+        s.add("clone", own); c = len(s.regs); s.regs.append(None)
+        s.add("mask", c); s.add("eq", 2, SD(c), SD(em))
+        s.add("unmask", c); s.add("eq", 2, SD(c), SD(eu))
         out.append(s.ops)
     for it in range(scale(tier, 80, 1500)):
         s = Script(ci)
@@ -433,6 +523,7 @@ def gen_C06(rng, ci, tier):
             out.append(script)
     for _ in range(scale(tier, 60, 1200)):
         out.append(history(rng.randint(5, scale(tier, 25, 60)), scale(tier, 120, 300)))
+    out += long_scripts(rng, ci, tier, ['edit'])
     return out
 
 
@@ -565,6 +656,7 @@ def gen_C02(rng, ci, tier):
                 if all(t is not None and t < 128 for t in txt):
                     s.add("keqstr", txt)
         out.append(s.ops)
+    out += long_scripts(rng, ci, tier, ['eq'])
     return out
 
 
@@ -988,6 +1080,7 @@ def gen_C12(rng, ci, tier):
         s.add("tocomp", d1); s.regs.append(None); s.add("codes", SD(len(s.regs) - 1))
         out.append(s.ops)
     out += arr_scripts(rng, ci, tier, scale(tier, 60, 1200))
+    out += long_scripts(rng, ci, tier, ['setops'])
     return out
 
 
@@ -1047,6 +1140,19 @@ def gen_C19_trim(rng, ci, tier):
     bad = ci.invalid_bytes
     # bounded exhaustive: every string of length <= 4 over {valid, valid2, bad}
     alpha = [valid[0], valid[-1], bad[0] if bad[0] != 0 else bad[1]]
+    # the NUL byte in every position of short inputs
+    if 0 in bad:
+        for n in range(1, 5):
+            for pos in range(n):
+                for other in (valid[0], bad[-1]):
+                    b = [valid[-1]] * n
+                    if n > 1:
+                        b[(pos + 1) % n] = other
+                    b[pos] = 0
+                    s = Script(ci)
+                    s.add("trim", b)
+                    s.add("codes", SD(0))
+                    out.append(s.ops)
     for n in range(0, scale(tier, 5, 6)):
         for tup in itertools.product(alpha, repeat=n):
             s = Script(ci)
@@ -1058,7 +1164,8 @@ def gen_C19_trim(rng, ci, tier):
         n = pick_len(rng, ci, 100)
         core = [rng.choice(valid) for _ in range(n)]
         if rng.random() < 0.35 and n > 2:
-            core[rng.randrange(1, n - 1)] = rng.choice(bad)     # interior bad byte
+            # interior bad byte; byte 0 and byte 255 are favoured (sentinel values of an implementation)
+            core[rng.randrange(1, n - 1)] = rng.choice([x for x in (0, 255) if x in bad] + [rng.choice(bad)])
         lead = [rng.choice(bad) for _ in range(rng.choice([0, 0, 1, 3, 10]))]
         tail = [rng.choice(bad) for _ in range(rng.choice([0, 0, 1, 3, 10]))]
         if rng.random() < 0.1:
@@ -1122,7 +1229,9 @@ def gen_C14(rng, ci, tier):
             for i in range(0, 16, step):
                 s.add("xlatei", SD(r, [(0, off + 3 * i, off + 3 * i + 3)]))
         out.append(s.ops)
-    for n in (0, 1, 2, 4, 5, 6, 9):
+    # "codons of any other length are reported invalid": short, long, and lengths that are 3 modulo a
+    # power of two of symbols or bits (a length check in a narrow integer must not let them through)
+    for n in (0, 1, 2, 4, 5, 6, 9, 16, 19, 35, 64, 67, 128, 131, 195, 259, 515):
         s = Script(ci)
         s.add("collect", 0, rand_codes(rng, ci, n + 3))
         s.add("xlatei", SD(0, [(0, 2, 2 + n)]))
@@ -1225,6 +1334,23 @@ def gen_C18(rng, ci, tier):
             s.add("serde", 1 - f, b); s.regs.append(None)
             s.add("eq", 2, SD(r), SD(len(s.regs) - 1))
         out.append(s.ops)
+    # sequences that hold ALTERNATIVE bit patterns of their symbols (built from a bit vector): the round
+    # trip must give back an equal value (same hash), not a re-encoded one
+    alts = [b for b in range(2 ** ci.bits) if b < 256 and ci.tab["try_bits"][b] is not None
+            and ci.tab["try_bits"][b] != b]
+    if alts:
+        for it in range(scale(tier, 20, 300)):
+            n = pick_len(rng, ci, 60) + 1
+            raw = [rng.choice(alts) if rng.random() < 0.4 else rng.choice(ci.items) for _ in range(n)]
+            raw[rng.randrange(n)] = rng.choice(alts)
+            s = Script(ci)
+            s.add("frombv", rng.choice([0, 1, 5, 63]), raw); s.regs.append(None); r = len(s.regs) - 1
+            for f in (0, 1):
+                s.add("serde", f, r); s.regs.append(None); b = len(s.regs) - 1
+                s.add("eq", 2, SD(r), SD(b))
+                s.add("hasheq", SD(r), SD(b))
+                s.add("codes", SD(b)); s.add("len", SD(b))
+            out.append(s.ops)
     for it in range(scale(tier, 60, 1200)):
         s = Script(ci)
         w = rng.choice([0, 1, 2])
@@ -1236,4 +1362,5 @@ def gen_C18(rng, ci, tier):
         s.add("kserde", 0); s.add("kobs"); s.add("keq", 0, d); s.add("khasheq", d)
         s.add("kserde", 1); s.add("kobs"); s.add("keq", 0, d); s.add("khasheq", d)
         out.append(s.ops)
+    out += long_scripts(rng, ci, tier, ['serde'])
     return out
